@@ -41,6 +41,73 @@ type loopInfo struct {
 	mods    []*modItem
 	scope   *modScope
 	reach   string
+	autoInv []autoInv
+}
+
+type autoInv struct {
+	phi *ssa.Phi
+	op  string
+	lo  string
+}
+
+// guardOnIncrement: header ends in "if (phi+1) < X" and every back edge carries that phi+1
+func (f *Frame) guardOnIncrement(li *loopInfo, phi *ssa.Phi) bool {
+	h := li.header
+	br, ok := h.Instrs[len(h.Instrs)-1].(*ssa.If)
+	if !ok {
+		return false
+	}
+	cmp, ok := br.Cond.(*ssa.BinOp)
+	if !ok || cmp.Op != token.LSS {
+		return false
+	}
+	inc, ok := cmp.X.(*ssa.BinOp)
+	if !ok || inc.Op != token.ADD || inc.X != ssa.Value(phi) {
+		return false
+	}
+	// the true branch must stay in the loop
+	if !li.body[h.Succs[0]] {
+		return false
+	}
+	for i, p := range h.Preds {
+		if li.body[p] && phi.Edges[i] != ssa.Value(inc) {
+			return false
+		}
+	}
+	return true
+}
+
+// counterLowerBound recognises i := c; ...; i = i + 1 (the only assignment in the loop).
+func (f *Frame) counterLowerBound(li *loopInfo, phi *ssa.Phi) (string, bool) {
+	if kindOf(phi.Type()) != KInt {
+		return "", false
+	}
+	var lo string
+	for i, p := range li.header.Preds {
+		e := phi.Edges[i]
+		if li.body[p] {
+			// back edge: must be phi + 1
+			b, ok := e.(*ssa.BinOp)
+			if !ok || b.Op != token.ADD {
+				return "", false
+			}
+			c, ok := b.Y.(*ssa.Const)
+			if !ok || b.X != ssa.Value(phi) || c.Value == nil || c.Int64() != 1 {
+				return "", false
+			}
+		} else {
+			c, ok := e.(*ssa.Const)
+			if !ok || c.Value == nil {
+				return "", false
+			}
+			t := f.g.constOf(c).Term
+			if lo != "" && lo != t {
+				return "", false
+			}
+			lo = t
+		}
+	}
+	return lo, lo != ""
 }
 
 type Frame struct {
@@ -332,6 +399,10 @@ func (f *Frame) run(entryReach string, st *State) {
 					}
 					sub[phi] = f.coerce(f.val(phi.Edges[i]), phi.Type())
 				}
+				for _, ai := range li.autoInv {
+					o := g.oblige("invariant-preserved", c, sApp(ai.op, sub[ai.phi].Term, ai.lo), f.pos(li.header.Instrs[0].Pos()), fmt.Sprintf("automatic counter bound of loop %d of %s", li.ordinal, f.fn.Name()))
+					o.Clause = "auto: " + ai.phi.Comment + " >= initial value"
+				}
 				if li.spec != nil {
 					for _, inv := range li.spec.Invariants {
 						env := f.specEnv(f.outState[p], f.entry).asGoal()
@@ -406,12 +477,35 @@ func (f *Frame) cutLoop(li *loopInfo, phiIn map[*ssa.Phi]*SVal) {
 		if !ok {
 			break
 		}
+		// automatic counter invariant: phi starts at a constant c and is stepped by +1 on every back edge
+		// => phi >= c (checked like any invariant: entry is trivial, preservation is an obligation)
+		if lo, ok := f.counterLowerBound(li, phi); ok {
+			in := phiIn[phi]
+			_, signed := intInfo(phi.Type())
+			ge := "bvuge"
+			if signed {
+				ge = "bvsge"
+			}
+			g.oblige("invariant-entry", f.curReach, sApp(ge, in.Term, lo), pos, fmt.Sprintf("automatic counter bound of loop %d of %s", li.ordinal, f.fn.Name())).Clause = "auto: " + phi.Comment + " >= initial value"
+			li.autoInv = append(li.autoInv, autoInv{phi, ge, lo})
+			// range-style loop: the header tests (phi+1) < X and the back edge carries that same phi+1.
+			// Then phi < MaxInt is inductive (phi+1 cannot wrap), which is what index checks on phi+1 need.
+			if signed && f.guardOnIncrement(li, phi) {
+				bits, _ := intInfo(phi.Type())
+				mx := bvLit(new(big.Int).Sub(new(big.Int).Lsh(big.NewInt(1), uint(bits-1)), big.NewInt(1)), bits)
+				g.oblige("invariant-entry", f.curReach, sApp("bvslt", in.Term, mx), pos, fmt.Sprintf("automatic counter bound of loop %d of %s", li.ordinal, f.fn.Name())).Clause = "auto: " + phi.Comment + " < MaxInt"
+				li.autoInv = append(li.autoInv, autoInv{phi, "bvslt", mx})
+			}
+		}
 		v := g.freshVal(phi.Type(), phi.Name())
 		g.assume(f.curReach, g.typeInv(v))
 		g.assume(f.curReach, g.refFacts(f.curState, v))
 		g.addNamed(v)
 		f.vals[phi] = v
 		li.phiEnv[phi] = v
+	}
+	for _, ai := range li.autoInv {
+		g.assume(f.curReach, sApp(ai.op, f.vals[ai.phi].Term, ai.lo))
 	}
 	if li.spec != nil {
 		for _, inv := range li.spec.Invariants {
@@ -620,6 +714,12 @@ func (f *Frame) setVal(v ssa.Value, sv *SVal) {
 	n.Imm = sv.Imm
 	n.Off = sv.Off
 	f.vals[v] = n
+	// loop counters' increments are useful instantiation/witness candidates
+	if b, ok := v.(*ssa.BinOp); ok && (b.Op == token.ADD || b.Op == token.SUB) && f.isTop {
+		if _, isPhi := b.X.(*ssa.Phi); isPhi {
+			f.g.addNamed(n)
+		}
+	}
 }
 
 func (f *Frame) oblige(kind, goal string, pos token.Pos, desc string) *Obligation {
